@@ -3,7 +3,7 @@ import importlib, os, pkgutil, sys
 sys.path.insert(0, os.path.dirname(os.path.abspath(__file__)))
 import propcfg
 
-HOOK_COMMITS = ["648b35a"]   # /repo commits that add cfg(rpm_verif)-guarded hooks
+HOOK_COMMITS = ["648b35a", "c2bafe6"]   # /repo commits that add cfg(rpm_verif)-guarded hooks
 NOT_YET = {}        # property id -> reason it is not claimed (MANIFEST.not_applicable)
 
 PROPS = {}
